@@ -76,7 +76,26 @@ type envEntry struct {
 func (p *Prog) envKeyOf(f *Func, e ast.Expr) string {
 	info := f.Pkg.TypesInfo
 	call, ok := ast.Unparen(e).(*ast.CallExpr)
-	if !ok || p.CalleeName(f, call) != "fmt.Sprintf" || len(call.Args) == 0 {
+	if !ok {
+		return ""
+	}
+	// a module helper that just returns the formatted entry
+	if ce := p.FnOf(asFunc(p.Callee(f, call))); ce != nil && ce != f {
+		var ret ast.Expr
+		n := 0
+		ast.Inspect(ce.Body, func(x ast.Node) bool {
+			if rs, ok := x.(*ast.ReturnStmt); ok && len(rs.Results) == 1 {
+				ret = rs.Results[0]
+				n++
+			}
+			return true
+		})
+		if n == 1 {
+			return p.envKeyOf(ce, ret)
+		}
+		return ""
+	}
+	if p.CalleeName(f, call) != "fmt.Sprintf" || len(call.Args) == 0 {
 		return ""
 	}
 	format, ok := constString(info, call.Args[0])
